@@ -100,7 +100,7 @@ def verbosity_pairs(r, n):
 
 
 def run():
-    chk = Check("C05", props_modules=["GFO.Props.C05", "GFO.Gen.StopGenCheck"], gen_steps=(translators.gen_stop,))
+    chk = Check("C05", props_modules=["GFO.Props.C05", "GFO.Gen.StopGenCheck", "GFO.Gen.MemGenCheck"], gen_steps=(translators.gen_stop, translators.gen_memory))
     chk.build_and_audit()
     r = C.rng("C05")
     quick = C.tier() != "thorough"
